@@ -117,7 +117,7 @@ for line in open(os.path.join(V, "DESIGN.md"), errors="replace"):
     cells = [c.strip() for c in line.split("|")]
     if len(cells) >= 5 and re.fullmatch(r"C\d\d[a-z]", cells[1] or "") and cells[1] not in T:
         T[cells[1]] = (cells[2].replace("`", ""), cells[3].replace("`", ""))
-for rj in ("seed_round6.json", "seed_round7.json"):
+for rj in ("seed_round6.json", "seed_round7.json", "seed_round8.json"):
     r6 = os.path.join(V, "tools", rj)
     if os.path.exists(r6):
         for k, v in json.load(open(r6)).items():
